@@ -27,7 +27,53 @@ def forms(k):
 
 
 AUX = {"kw": {k: forms(k) for k in KWS}, "mb": ["é", "✓", "😀", " ", "﻿"],
-       "seps": [" ", "\n", "\t", "  ", "\r\n"], "comments": [" # c\n", " #\n", "\n# SELECT { \n"]}
+       "seps": [" ", "\n", "\t", "  ", "\r\n", "\r"], "comments": [" # c\n", " #\n", "\n# SELECT { \n", " # c\r", " # } LIMIT 1\r\n", "\r# é\r"],
+       "tails": [" # done", "\n#", "\r"]}
+# variable names outside ASCII (SPARQL VARNAME admits letters and digits of any script), and ones that end in a digit / underscore
+NAMES = [{"a": "é", "b": "café", "c": "x中", "d": "ß2", "g": "g"}, {"a": "a_1", "b": "B", "c": "ça", "d": "d9", "g": "gé"},
+         {"a": "ñandú", "b": "b", "c": "Ω", "d": "x_", "g": "γ"}]
+
+
+def rename_vars(x, m):
+    """Consistent renaming of the variables of a tree (terms ["v", name], projection / group / order / bind / values names)."""
+    if isinstance(x, list):
+        if len(x) == 2 and x[0] == "v" and isinstance(x[1], str):
+            return ["v", m.get(x[1], x[1])]
+        return [rename_vars(y, m) for y in x]
+    if isinstance(x, dict):
+        out = {}
+        for k, v in x.items():
+            if k in ("v", "as") and isinstance(v, str):
+                out[k] = m.get(v, v)
+            elif k in ("vars", "group") and isinstance(v, list):
+                out[k] = [m.get(y, y) for y in v]
+            else:
+                out[k] = rename_vars(v, m)
+        return out
+    return x
+
+
+def arith(rng, scope, depth):
+    if depth == 0 or rng.random() < 0.25:
+        return G.V(rng.choice(scope)) if scope and rng.random() < 0.5 else G.C(rng.choice(["1", "2", "3", "5", "10"]))
+    return ["ar", rng.choice(["+", "-", "-", "*", "/"]), arith(rng, scope, depth - 1), arith(rng, scope, depth - 1)]
+
+
+def add_arith(x, rng, scope):
+    """Replace operands of some comparisons by arithmetic expressions (chains of + - * / in every nesting)."""
+    if isinstance(x, list):
+        return [add_arith(y, rng, scope) for y in x]
+    if isinstance(x, dict):
+        if x.get("t") == "cmp" and rng.random() < 0.7:
+            y = dict(x)
+            side = rng.choice(["l", "r", "both"])
+            if side in ("l", "both"):
+                y["l"] = ["ar", rng.choice(["+", "-", "-", "*", "/"]), arith(rng, scope, 2), arith(rng, scope, 2)]
+            if side in ("r", "both"):
+                y["r"] = arith(rng, scope, 3)
+            return y
+        return {k: add_arith(v, rng, scope) for k, v in x.items()}
+    return x
 
 
 def gen_trees(seed, n):
@@ -41,6 +87,10 @@ def gen_trees(seed, n):
             tree, kind = G.Gen(rng, None, quads).group(rng.choice([1, 2])), "group"
         else:
             tree, kind = G.Gen(rng, None, quads).select(rng.choice([1, 2, 3])), "select"
+        if i % 3 == 1:
+            tree = add_arith(tree, rng, ["a", "b", "c", "d"])
+        if i % 5 >= 3:
+            tree = rename_vars(tree, NAMES[(i // 5) % len(NAMES)])
         lex = set()
         lexicals_of(tree, lex)
         cases.append({"kind": kind, "tree": tree, "txt": {x: G.render(x) for x in lex}})
